@@ -66,6 +66,13 @@ type Comp struct {
 	// started (work a run handed off and did not wait for); 0 = none
 	StragglerRun int `json:"straggler_run,omitempty"`
 	StragglerUs  int `json:"straggler_us,omitempty"`
+	// MinIntervalUs: the rerunner's minRerunInterval (a re-run stays pending that long after
+	// the previous run, unless RerunImmediately flushes it)
+	MinIntervalUs int `json:"min_interval_us,omitempty"`
+	// SlowFrom / SlowUs: runs number SlowFrom and later take SlowUs before their first read
+	// (the previous computation stays the current one, invalidated, for that long)
+	SlowFrom int `json:"slow_from,omitempty"`
+	SlowUs   int `json:"slow_us,omitempty"`
 }
 
 type Fire struct {
@@ -153,6 +160,11 @@ type Machine struct {
 	exitsTotal int64 // completed runs of all rerunners
 	seq        int64 // event counter (registrations and cleanups)
 	stragglers int32 // goroutines left behind by runs that have not finished yet
+	// ready: the rerunners are set up; checkCleanup: the release oracles apply (C08);
+	// online: first violation seen by the release hook
+	ready        int32
+	checkCleanup bool
+	online       atomic.Value
 }
 
 // Hits counts the interesting interleavings that actually happened.
@@ -186,6 +198,7 @@ type runner struct {
 	lastOK        int
 	failed        bool
 	stopped       bool
+	stopping      int32 // set before the harness calls Stop
 	entriesAtStop int32
 	childRuns     map[int]int
 	violation     string
@@ -274,7 +287,7 @@ func (m *Machine) read(ctx context.Context, rd Read, seen map[int]int, rn *runne
 	}
 	fireMid := func() {
 		for _, f := range rn.comp.Fire {
-			if f.Run == run && f.At == idx && f.Mid {
+			if f.Run == run && f.At == idx && f.Mid && f.Arm == 0 {
 				atomic.AddInt32(&m.hits.WriteMid, 1)
 				m.write(f.Slot)
 			}
@@ -372,6 +385,9 @@ func (rn *runner) compute(ctx context.Context) (interface{}, error) {
 	rn.mu.Lock()
 	rn.curRegs = nil
 	rn.mu.Unlock()
+	if rn.comp.SlowFrom > 0 && run >= rn.comp.SlowFrom {
+		time.Sleep(time.Duration(rn.comp.SlowUs) * time.Microsecond)
+	}
 	if rn.comp.PurgeOnRun == run {
 		atomic.AddInt32(&m.hits.Purge, 1)
 		reactive.PurgeCache(ctx)
@@ -570,7 +586,30 @@ func init() {
 	reactive.VerifReleased = func(addr uintptr) {
 		if v, ok := resByAddr.Load(addr); ok {
 			info := v.(*resInfo)
-			atomic.StoreInt64(&info.releasedSeq, atomic.AddInt64(&info.m.seq, 1))
+			m := info.m
+			sq := atomic.AddInt64(&m.seq, 1)
+			atomic.StoreInt64(&info.releasedSeq, sq)
+			if atomic.LoadInt32(&m.ready) == 0 || !m.checkCleanup {
+				return
+			}
+			// Checked at the moment of the marking (the node's lock is held, so the order
+			// against completed registrations is exact): no live rerunner's current computation
+			// - its last successful run, until a later one succeeds or Stop is called - has
+			// registered this resource itself.
+			for _, rn := range m.runners {
+				if atomic.LoadInt32(&rn.stopping) == 1 {
+					continue
+				}
+				rn.mu.Lock()
+				if !rn.stopped && !rn.failed {
+					for _, rg := range rn.lastRegs {
+						if rg.info == info && rg.seq < sq {
+							m.online.CompareAndSwap(nil, fmt.Sprintf("resource %d was marked released while it is registered by the current computation of rerunner %d (its run #%d, registered at event %d, released at event %d; the rerunner is not stopped and has not failed)", info.id, rn.idx, rn.lastOK, rg.seq, sq))
+						}
+					}
+				}
+				rn.mu.Unlock()
+			}
 		}
 	}
 	reactive.VerifYield = func(site string) {
@@ -647,7 +686,7 @@ func Run(c Case, checkCleanup bool) (Result, string, error) {
 	yieldState.mu.Unlock()
 	defer func() { yieldState.mu.Lock(); yieldState.on = false; yieldState.mu.Unlock() }()
 
-	m := &Machine{c: c}
+	m := &Machine{c: c, checkCleanup: checkCleanup}
 	defer func() {
 		m.resMu.Lock()
 		for _, in := range m.allRes {
@@ -667,9 +706,10 @@ func Run(c Case, checkCleanup bool) (Result, string, error) {
 			cancel()
 			rn.preCancelled = true
 		}
-		rn.rr = reactive.NewRerunner(ctx, rn.compute, 0, c.Spawn)
+		rn.rr = reactive.NewRerunner(ctx, rn.compute, time.Duration(comp.MinIntervalUs)*time.Microsecond, c.Spawn)
 		m.runners = append(m.runners, rn)
 	}
+	atomic.StoreInt32(&m.ready, 1)
 	var res Result
 	// which slots are shared between >= 2 rerunners
 	users := map[int]int{}
@@ -701,6 +741,7 @@ func Run(c Case, checkCleanup bool) (Result, string, error) {
 			if atomic.LoadInt32(&rn.entries) != atomic.LoadInt32(&rn.exits) {
 				atomic.AddInt32(&m.hits.StopDuringRun, 1)
 			}
+			atomic.StoreInt32(&rn.stopping, 1)
 			if !stopWithin(rn.rr, ev.Patience(10*time.Second)) {
 				return res, "wedged", fmt.Errorf("Stop of rerunner %d does not return within 10s although no run takes more than milliseconds: the rerunner is wedged and will never run again", rn.idx)
 			}
@@ -830,7 +871,15 @@ func Run(c Case, checkCleanup bool) (Result, string, error) {
 		}
 		// really quiet: no run entered or left for longer than the re-run delay
 		quiet := false
-		settle := 3*time.Millisecond + 2*time.Duration(c.DelayUs)*time.Microsecond
+		// (a re-run can stay pending, invisibly, for a rerunner's minRerunInterval - twice
+		// that after a retry - plus the re-run delay)
+		maxInterval := 0
+		for _, comp := range c.Comps {
+			if comp.MinIntervalUs > maxInterval {
+				maxInterval = comp.MinIntervalUs
+			}
+		}
+		settle := 3*time.Millisecond + 2*time.Duration(c.DelayUs)*time.Microsecond + 2*time.Duration(maxInterval)*time.Microsecond
 		for i := 0; i < 50 && !timers; i++ {
 			e0, x0 := m.totals()
 			time.Sleep(settle)
@@ -842,7 +891,9 @@ func Run(c Case, checkCleanup bool) (Result, string, error) {
 		}
 		if quiet {
 			cur := current()
+			eQuiet, _ := m.totals()
 			probed := map[int]bool{}
+		probing:
 			for _, rn := range m.runners {
 				rn.mu.Lock()
 				exempt := rn.stopped || rn.failed || rn.preCancelled || cancelled[rn.idx]
@@ -864,8 +915,16 @@ func Run(c Case, checkCleanup bool) (Result, string, error) {
 						continue // already released earlier (a run that did not read the slot)
 					}
 					exits0 := atomic.LoadInt64(&m.exitsTotal)
+					if e1, _ := m.totals(); e1 != eQuiet {
+						break probing // a run started since the picture was taken: it is stale
+					}
 					reactive.AddDependency(context.Background(), r, nil)
 					time.Sleep(2 * time.Millisecond)
+					if e1, _ := m.totals(); e1 != eQuiet {
+						// not at rest after all (a run started during the probe, it may have
+						// written the slot): the observation says nothing
+						break probing
+					}
 					// The resource may be let go legitimately in this window, but only after some
 					// rerunner completed a new run (the computation that held it was replaced); a
 					// cleanup before any run has completed was caused by the unrelated registration.
@@ -881,7 +940,11 @@ func Run(c Case, checkCleanup bool) (Result, string, error) {
 	if !m.waitStragglers(5 * time.Second) {
 		return res, "straggler-stuck", fmt.Errorf("a goroutine that called reactive.Cache with the context of a finished run is still blocked 5s later")
 	}
+	if v := m.online.Load(); v != nil {
+		return res, "early-cleanup", errors.New(v.(string))
+	}
 	for _, rn := range m.runners {
+		atomic.StoreInt32(&rn.stopping, 1)
 		if !stopWithin(rn.rr, ev.Patience(10*time.Second)) {
 			return res, "wedged", fmt.Errorf("Stop of rerunner %d does not return within 10s although no run takes more than milliseconds: the rerunner is wedged and will never run again", rn.idx)
 		}
@@ -1064,6 +1127,11 @@ func Gen(t *rapid.T, cacheDepth int, hooks bool) Case {
 		if cacheDepth > 0 && rapid.IntRange(0, 5).Draw(t, "expire") == 0 {
 			comp.ExpireMs = rapid.SampledFrom([]int{1, 2, 3, -1, -2}).Draw(t, "expirems")
 		}
+		comp.MinIntervalUs = rapid.SampledFrom([]int{0, 0, 0, 0, 1000, 4000}).Draw(t, "mininterval")
+		if rapid.IntRange(0, 3).Draw(t, "slow") == 0 {
+			comp.SlowFrom = rapid.IntRange(2, 3).Draw(t, "slowfrom")
+			comp.SlowUs = rapid.SampledFrom([]int{500, 2000, 4000}).Draw(t, "slowus")
+		}
 		c.Comps = append(c.Comps, comp)
 		c.PreCancel = append(c.PreCancel, rapid.IntRange(0, 9).Draw(t, "precancel") == 0)
 	}
@@ -1072,7 +1140,17 @@ func Gen(t *rapid.T, cacheDepth int, hooks bool) Case {
 	c.ReleaseGapUs = rapid.SampledFrom([]int{0, 0, 100, 500}).Draw(t, "releasegapus")
 	na := rapid.IntRange(2, 30).Draw(t, "nactions")
 	for i := 0; i < na; i++ {
-		a := Action{Kind: rapid.SampledFrom([]string{"write", "write", "write", "write", "pause", "pause", "rerun", "stop", "cancel"}).Draw(t, "akind")}
+		a := Action{Kind: rapid.SampledFrom([]string{"write", "write", "write", "write", "pause", "pause", "rerun", "stop", "cancel", "burst"}).Draw(t, "akind")}
+		if a.Kind == "burst" {
+			// the same slot written twice in a row (the second write finds dependents whose
+			// re-run is still pending), then one rerunner goes away
+			sl := rapid.IntRange(0, c.NSlots-1).Draw(t, "aslot")
+			gap := rapid.SampledFrom([]int{0, 100, 400}).Draw(t, "burstgap")
+			c.Actions = append(c.Actions, Action{Kind: "write", Slot: sl}, Action{Kind: "pause", Us: gap}, Action{Kind: "write", Slot: sl}, Action{Kind: "pause", Us: gap})
+			a = Action{Kind: "stop", R: rapid.IntRange(0, nr-1).Draw(t, "ar")}
+			c.Actions = append(c.Actions, a)
+			continue
+		}
 		switch a.Kind {
 		case "write":
 			a.Slot = rapid.IntRange(0, c.NSlots-1).Draw(t, "aslot")
